@@ -46,7 +46,36 @@ pub fn base64url_decode(b64data: &str) -> Result<Vec<u8>> {
 pub(crate) fn generate_salt() -> String {
     let mut buf = [0u8; 16];
     ThreadRng::default().fill_bytes(&mut buf);
+    #[cfg(feature = "verif_hooks")]
+    verif_hooks::log(verif_hooks::Draw::Salt(base64url_encode(&buf)));
     base64url_encode(&buf)
+}
+
+/// Verification instrumentation: a per-thread log of the random draws made by the issuer
+/// (every salt returned by `generate_salt` and every decoy count), in the order drawn.
+#[cfg(feature = "verif_hooks")]
+#[doc(hidden)]
+pub mod verif_hooks {
+    use std::cell::RefCell;
+
+    #[derive(Debug, Clone, PartialEq, Eq)]
+    pub enum Draw {
+        Salt(String),
+        DecoyCount(u32),
+    }
+
+    thread_local! {
+        static LOG: RefCell<Vec<Draw>> = RefCell::new(Vec::new());
+    }
+
+    pub fn log(draw: Draw) {
+        LOG.with(|l| l.borrow_mut().push(draw));
+    }
+
+    /// Returns and clears this thread's log.
+    pub fn drain() -> Vec<Draw> {
+        LOG.with(|l| std::mem::take(&mut *l.borrow_mut()))
+    }
 }
 
 #[cfg(feature = "mock_salts")]
